@@ -15,6 +15,29 @@ from ..util import maxabs
 TOL = 1e-10
 
 
+class Snapshot:
+    """Copy of what a tool may read from its input mesh."""
+
+    def __init__(self, mesh):
+        self.points = np.array(mesh.points, copy=True)
+        self.cells = np.array(mesh.cells, copy=True)
+        self.cell_type = mesh.cell_type
+        self.dim = self.points.shape[1]
+        self.npoints, self.ncells = len(self.points), len(self.cells)
+
+
+def rodrigues(angle_deg, dim, axis):
+    """Right-handed rotation matrix about a coordinate axis (2d: in the plane), written out independently."""
+    t = np.deg2rad(angle_deg)
+    c, s_ = np.cos(t), np.sin(t)
+    if dim == 2:
+        return np.array([[c, -s_], [s_, c]])
+    k = np.zeros(3)
+    k[axis] = 1.0
+    K = np.array([[0, -k[2], k[1]], [k[2], 0, -k[0]], [-k[1], k[0], 0]])
+    return np.eye(3) + s_ * K + (1 - c) * (K @ K)
+
+
 def vols(mesh):
     if mesh is None or getattr(mesh, "cell_type", None) is None:
         return None
@@ -83,6 +106,18 @@ def post_rigid(run, tool, m, out, a):
                 "%s: distances between points are not preserved" % tool, unit=tool + ":isometry")
     if not np.array_equal(out.cells, m.cells) and tool != "mirror":
         run.fail("mesh." + tool, "tool=%s clause=cells-unchanged" % tool, "%s changed the connectivity" % tool)
+    # the points are where the arguments say (angle in degree about the given axis and centre; move along the given axis)
+    dim = m.points.shape[1]
+    ref = None
+    if tool == "rotate" and "angle_deg" in a and a.get("axis", 0) in (0, 1, 2):
+        c = np.zeros(dim) if a.get("center") is None else np.asarray(a["center"], float)[:dim]
+        ref = (m.points - c) @ rodrigues(float(a["angle_deg"]), dim, int(a.get("axis", 0))).T + c
+    elif tool == "translate" and "move" in a and np.isscalar(a.get("move")):
+        ref = m.points.copy()
+        ref[:, int(a.get("axis", 0))] += float(a["move"])
+    if ref is not None:
+        run.compare("mesh." + tool, "tool=%s clause=positions" % tool, maxabs(out.points - ref) / max(maxabs(ref), 1e-300), TOL,
+                    "%s: the points are not where the arguments (angle / axis / centre / move) put them" % tool, unit=tool + ":positions")
 
 
 def post_mirror(run, tool, m, out, a):
@@ -117,6 +152,15 @@ def post_flip(run, tool, m, out, a, orig):
     if v2 is not None:
         run.compare("mesh.flip", "tool=flip clause=double-flip-volume", maxabs(v2 - v0) / maxabs(v0), TOL,
                     "flip: double flip changes cell volumes", unit="flip:volume")
+    # one flip: exactly the selected cells change their orientation, the others stay
+    v1 = vols(out)
+    if v1 is not None and len(v1) == len(v0):
+        sel = np.ones(len(v0), bool) if a.get("mask") is None else np.zeros(len(v0), bool)
+        if a.get("mask") is not None:
+            sel[np.asarray(a["mask"])] = True
+        exp = np.where(sel, -v0, v0)
+        run.compare("mesh.flip", "tool=flip clause=selected-cells-inverted", maxabs(v1 - exp) / maxabs(v0), TOL,
+                    "flip: not exactly the cells of the mask changed their orientation", unit="flip:selection")
 
 
 def post_triangulate(run, tool, m, out, a):
@@ -157,6 +201,16 @@ def post_expand(run, tool, m, out, a):
     v0, v1 = vols(m), _positive(run, tool, out)
     if v1 is None:
         return
+    layers = np.linspace(0, thick, n) if np.isscalar(z) else zz
+    if len(v1) == len(v0) * (len(layers) - 1):
+        # layer by layer (cells are stacked layer-wise): every layer has the thickness the arguments give it
+        exp = (np.diff(layers)[:, None] * v0[None, :]).ravel()
+        run.compare("mesh.expand", "tool=expand clause=layer-volumes", maxabs(v1 - exp) / maxabs(exp), TOL,
+                    "expand: the cells of a layer do not have base area times that layer's thickness", unit="expand:layers")
+        zs = np.unique(np.round(out.points[:, -1], 12))
+        z0 = 0.0 if np.isscalar(z) else float(zz[0])
+        run.compare("mesh.expand", "tool=expand clause=layer-positions", maxabs(zs - np.round(z0 + layers - layers[0], 12)) if len(zs) == len(layers) else np.inf,
+                    1e-10 * max(1.0, abs(thick)), "expand: the layers do not sit at the given positions", unit="expand:layers")
     _volume(run, "expand", float(v1.sum()), float(v0.sum()) * thick, ctype=m.cell_type,
             sample={"tool": "expand", "cell_type": m.cell_type, "layers": n, "thickness": thick})
 
@@ -171,6 +225,8 @@ def post_revolve(run, tool, m, out, a):
     else:
         ang = np.asarray(phi, float)
     dphi = np.diff(ang)
+    if len(dphi) and np.all(dphi < 0) and axis == 1 and m.cell_type == "quad":
+        dphi = -dphi  # the documented way to revolve about the second axis: negative angles (positively oriented cells)
     if len(dphi) == 0 or np.any(dphi <= 0) or np.any(dphi >= 180) or ang[-1] - ang[0] > 360 + 1e-9:
         run.skip("mesh.revolve", "angles not increasing in (0, 180) per segment")
         return
@@ -202,6 +258,10 @@ def post_revolve(run, tool, m, out, a):
         v1 = _positive(run, tool, out, " celltype=%s axis=%s" % (m.cell_type, axis))
     if v1 is None:
         return
+    if len(v1) == len(dphi) * m.ncells:
+        seg = np.abs(v1).reshape(len(dphi), m.ncells).sum(1)
+        run.compare("mesh.revolve", "tool=revolve clause=segment-volumes axis=%s" % axis, maxabs(seg - np.sin(np.deg2rad(dphi)) * integral) / abs(expected), TOL,
+                    "revolve: the cells of an angular segment do not have the volume of that segment's angle", unit="revolve:segments")
     _volume(run, "revolve", float(np.abs(v1).sum()), expected, " axis=%s" % axis, ctype=(m.cell_type, axis),
             sample={"tool": "revolve", "cell_type": m.cell_type, "axis": axis, "segments": len(dphi),
                     "phi": float(ang[-1]), "volume": float(np.abs(v1).sum()), "expected": expected})
@@ -361,10 +421,18 @@ def post_generator(run, obj, a):
         lo, hi = np.array(a["a"], float), np.array(a["b"], float)
         ref = lo + (hi - lo) * (np.asarray(el.points) + 1) / 2
         got = obj.points[obj.cells[0]]
-        run.compare(mon, "generator=%s clause=element-layout" % name, maxabs(got - ref) / maxabs(hi - lo), 1e-12,
-                    "%s: nodes do not sit at the images of the Lagrange element's reference nodes" % name,
+        # ... and against the VTK layout stated independently of the library (vmon/oracles/cells.py)
+        ref2 = lo + (hi - lo) * OC.vtk_lagrange_grid(order, dim) / order
+        run.compare(mon, "generator=%s clause=element-layout" % name, max(maxabs(got - ref), maxabs(got - ref2)) / maxabs(hi - lo), 1e-12,
+                    "%s: nodes do not sit at the images of the Lagrange element's reference nodes (VTK layout)" % name,
                     unit=tool + ":layout", config=(name, order))
         no_unused_no_duplicates(run, tool, obj)
+        # the vertices come first: the linear cell through them is positively oriented and covers the intended box
+        vv = OC.signed_volumes(obj.points, obj.cells[:, : 2 ** dim], "quad" if dim == 2 else "hexahedron")
+        if np.all(hi > lo):
+            run.compare(mon, "generator=%s clause=volume" % name, abs(float(vv.sum()) - float(np.prod(hi - lo))) / float(np.prod(hi - lo)), TOL,
+                        "%s: the cell through the vertices does not cover the intended box with positive orientation" % name,
+                        unit=tool + ":volume", config=(name, order, "volume"))
         return
     if v is None:
         run.skip(mon, "unsupported cell type")
@@ -410,6 +478,31 @@ def post_generator(run, obj, a):
             expected = 0.5 * float(np.sum(P[:, 0] * np.roll(P[:, 1], -1) - np.roll(P[:, 0], -1) * P[:, 1]))
         if rad.max() > R * (1 + 1e-9):
             run.fail(mon, "generator=Circle clause=inside", "Circle: a point lies outside the radius")
+    # the intended domain, not only its measure: bounds, grid coordinates, corners
+    if name in ("Line", "Rectangle", "Cube") and expected is not None:
+        run.compare(mon, "generator=%s clause=bounds" % name, max(maxabs(obj.points.min(0) - lo), maxabs(obj.points.max(0) - hi)), 1e-13 * max(1.0, maxabs(hi), maxabs(lo)),
+                    "%s: the bounding box of the points is not [a, b]" % name, unit=tool + ":bounds")
+    elif name == "Grid" and expected is not None:
+        import itertools
+        order_ = a.get("indexing", "ij")
+        want = sorted(itertools.product(*[np.round(np.asarray(x, float), 12) for x in xi]))
+        have = sorted(map(tuple, np.round(obj.points, 12)))
+        if len(want) == len(have) and maxabs(np.array(want) - np.array(have)) < 1e-11:
+            run.ok(mon, unit=tool + ":coordinates")
+        else:
+            run.fail(mon, "generator=Grid clause=coordinates", "Grid: the points are not the tensor product of the given coordinate arrays")
+    elif name == "Triangle" and expected is not None:
+        from scipy.spatial import cKDTree
+        d, _ = cKDTree(obj.points).query(np.array([pa, pb, pc]))
+        run.compare(mon, "generator=Triangle clause=corners", float(d.max()), 10.0 ** (-a.get("decimals", 10)) * 10 + 1e-12,
+                    "Triangle: a given corner is not a point of the mesh", unit=tool + ":bounds")
+    if name == "Circle" and expected is None and len(set(sec)) == len(sec) and all(abs((x - y) % 360) >= 90 - 1e-9 for i, x in enumerate(sec) for y in sec[i + 1:]):
+        # k non-overlapping quarter sections: k/4 of the full polygon of the same n, judged against a full circle built by the oracle
+        # side from the section's own boundary points is not possible; use the closed form of the polygonal sector instead:
+        # every section is meshed by 2*(n-1) equal chords on the arc -> area = 2(n-1) * R^2/2 * sin(pi/2 / (2(n-1)))
+        nn = int(a.get("n", 6))
+        nch = 2 * (nn - 1)
+        expected = len(sec) * nch * 0.5 * R ** 2 * np.sin(0.5 * np.pi / nch)
     if expected is not None:
         # Circle and Triangle round their points to ``decimals`` digits when merging (documented argument)
         tol = TOL + (100 * 10.0 ** (-a["decimals"]) if "decimals" in a else 0.0)
@@ -437,6 +530,10 @@ def attach_hooks(run):
     def method_hook(name, fn, needs_orig=False):
         orig = Mesh.__dict__[name]
 
+        def pre(self, args, kwargs):
+            # the input as it was handed over (a tool that also changes its input in place must not move the reference)
+            return Snapshot(self)
+
         def post(self, args, kwargs, ctx, result, exc):
             if exc is not None or result is None:
                 return
@@ -444,14 +541,20 @@ def attach_hooks(run):
             a = bind(orig, self, args, kwargs)
             if a is None:
                 return
-            if not valid(self):
+            before = ctx if ctx is not None else self
+            if result is not self and (not np.array_equal(before.points, self.points) or not np.array_equal(before.cells, self.cells)):
+                run.fail("mesh." + name, "tool=%s clause=input-untouched" % name,
+                         "%s returns a new mesh but also changed the points / cells of the mesh it was called on" % name)
+            else:
+                run.ok("mesh." + name, unit="input-untouched")
+            if not valid(before):
                 run.skip("mesh." + name, "input mesh not valid / not supported by the oracle")
                 return
             if needs_orig:
-                fn(run, name, self, result, a, orig)
+                fn(run, name, before, result, a, orig)
             else:
-                fn(run, name, self, result, a)
-        attach.wrap_method(Mesh, name, post=post)
+                fn(run, name, before, result, a)
+        attach.wrap_method(Mesh, name, pre=pre, post=post)
 
     method_hook("rotate", post_rigid)
     method_hook("translate", post_rigid)
